@@ -9,6 +9,7 @@ int vf_alloc_fail, vf_assoc_fail, vf_kset_fail, vf_calloc_fail;
 unsigned vf_allocs, vf_frees, vf_assocs, vf_ksets, vf_kfrees; const void *vf_freed, *vf_assoc_pool, *vf_assoc_thread;
 void *vf_ktable; /* table created by ktable_set_unsafe */
 const void *vf_sched_key_addr; /* = &g_thread_sched_key (set by the harness; statics are havocked by the instrumentation, so the key is identified by address) */
+const void *vf_mig_key_addr; void *vf_mig_val; void (*vf_mig_cb)(ABT_thread, void *); void *vf_mig_arg; /* = &g_thread_mig_data_key; the migration record registered for the new unit (C13: the attribute's callback) */
 void *vf_sched_val; /* value stored under the stackable-scheduler key (its destructor hands the scheduler's fate to the work unit) */
 #define ALLOC_CONTRACT                                                                               \
     __CPROVER_assigns(*pp_ythread, vf_allocs)                                                        \
@@ -32,9 +33,10 @@ static inline int ABTI_thread_init_pool(ABTI_global *g, ABTI_thread *p_thread, A
 static inline int ABTI_thread_set_associated_pool(ABTI_global *g, ABTI_thread *p_thread, ABTI_pool *p_pool) ASSOC_CONTRACT;
 
 static inline int ABTI_ktable_set_unsafe(ABTI_global *g, ABTI_local *l, ABTI_ktable **pp_ktable, ABTI_key *p_key, void *value)
-__CPROVER_assigns(*pp_ktable, vf_ksets, vf_sched_val)
+__CPROVER_assigns(*pp_ktable, vf_ksets, vf_sched_val, vf_mig_val, vf_mig_cb, vf_mig_arg)
 __CPROVER_ensures(vf_ksets == __CPROVER_old(vf_ksets) + 1)
 __CPROVER_ensures((!vf_kset_fail && p_key == vf_sched_key_addr) ? vf_sched_val == value : vf_sched_val == __CPROVER_old(vf_sched_val))
+__CPROVER_ensures((!vf_kset_fail && p_key == vf_mig_key_addr) ? (vf_mig_val == value && vf_mig_cb == ((ABTI_thread_mig_data *)value)->f_migration_cb && vf_mig_arg == ((ABTI_thread_mig_data *)value)->p_migration_cb_arg) : (vf_mig_val == __CPROVER_old(vf_mig_val) && vf_mig_cb == __CPROVER_old(vf_mig_cb) && vf_mig_arg == __CPROVER_old(vf_mig_arg)))
 __CPROVER_ensures(vf_kset_fail ? __CPROVER_return_value == ABT_ERR_MEM : (__CPROVER_return_value == ABT_SUCCESS && *pp_ktable == (ABTI_ktable *)vf_ktable && vf_ktable != NULL));
 static inline int ABTU_calloc(size_t num, size_t size, void **p_ptr)
 __CPROVER_assigns(*p_ptr)
@@ -62,7 +64,7 @@ void h_ythread_create(void)
     int op; VF_ASSUME(op == THREAD_POOL_OP_NONE || op == THREAD_POOL_OP_PUSH || op == THREAD_POOL_OP_INIT);
     ABTI_thread_type ty; VF_ASSUME((ty & ~(ABTI_THREAD_TYPE_YIELDABLE | ABTI_THREAD_TYPE_NAMED | ABTI_THREAD_TYPE_MAIN_SCHED | ABTI_THREAD_TYPE_PRIMARY)) == 0);
     { ABTI_sched ns; sch = ns; } vf_sched_key_addr = &g_thread_sched_key; VF_ASSUME(sch.automatic == ABT_TRUE || sch.automatic == ABT_FALSE); int use_sched; ABTI_sched *ps = use_sched ? &sch : NULL;
-    sch.p_ythread = NULL; /* a scheduler handed to a new ULT is not in use yet (checked by the callers) */ ABTI_sched_used used0 = sch.used; n_sched_free = 0; vf_sched_val = NULL; gp_ABTI_global = &glob;
+    sch.p_ythread = NULL; /* a scheduler handed to a new ULT is not in use yet (checked by the callers) */ ABTI_sched_used used0 = sch.used; n_sched_free = 0; vf_sched_val = NULL; gp_ABTI_global = &glob; vf_mig_key_addr = &g_thread_mig_data_key; vf_mig_val = NULL; vf_mig_cb = NULL; vf_mig_arg = NULL;
     ABTI_ythread *out = (ABTI_ythread *)0x77;
     newy.thread.type = ABTI_THREAD_TYPE_MEM_MEMPOOL_DESC; /* set by the allocator */
     int r = ythread_create(&glob, NULL, &pool, work, &the_arg, pa, ty, ps, (thread_pool_op_kind)op, &out);
@@ -73,6 +75,11 @@ void h_ythread_create(void)
         VF_ASSERT(op == THREAD_POOL_OP_PUSH ? (n_push == 1 && push_pool == (void *)&pool && push_unit == newy.thread.unit && push_ctx == (int)ABT_POOL_CONTEXT_OP_THREAD_CREATE) : n_push == 0, "pushed exactly once iff asked to (PUSH), never for INIT/NONE");
         VF_ASSERT(vf_frees == 0 && vf_kfrees == 0 && !vf_alloc_fail && n_sched_free == 0, "success: nothing released");
         VF_ASSERT((ps && !(ty & (ABTI_THREAD_TYPE_PRIMARY | ABTI_THREAD_TYPE_MAIN_SCHED))) ? vf_sched_val == ps : vf_sched_val == NULL, "a stackable scheduler is registered under the scheduler key of its ULT (freed with it), others are not");
+        /* C13: the migration callback given in the attribute belongs to the unit from its creation on, whether or not the unit is
+         * migratable at that moment (ABT_thread_set_migratable may switch migration on later; the callback must then still be there) */
+        if (pa && attr.f_cb) VF_ASSERT(vf_mig_val != NULL && vf_mig_cb == attr.f_cb && vf_mig_arg == attr.p_cb_arg, "the attribute's migration callback and its argument are registered with the new unit -- also for a unit created non-migratable");
+        else VF_ASSERT(vf_mig_val == NULL, "no migration record without a callback in the attribute");
+        VF_ASSERT(pa ? (!!(newy.thread.type & ABTI_THREAD_TYPE_MIGRATABLE) == (attr.migratable == ABT_TRUE)) : 1, "migratable exactly as the attribute says");
     } else {
         VF_ASSERT(n_push == 0 && out == (ABTI_ythread *)0x77, "failure: nothing pushed, output handle untouched");
         VF_ASSERT(vf_alloc_fail ? vf_frees == 0 : (vf_frees == 1 && vf_freed == &newy.thread), "failure: the descriptor/stack obtained in this call is released exactly once (never if the allocation itself failed)");
@@ -82,7 +89,7 @@ void h_ythread_create(void)
     }
     VF_ASSERT((r != ABT_SUCCESS) ==> (vf_alloc_fail || vf_assoc_fail || vf_kset_fail || vf_calloc_fail), "fails only if some allocation / association failed (no spurious failure)");
     VF_REACH("ythread_create returns");
-    VF_COVER(r == ABT_SUCCESS && op == THREAD_POOL_OP_PUSH, "created and pushed"); VF_COVER(r != ABT_SUCCESS && !vf_alloc_fail && vf_assoc_fail, "association failed"); VF_COVER(r != ABT_SUCCESS && vf_alloc_fail, "alloc failed"); VF_COVER(r != ABT_SUCCESS && use_sched && vf_assoc_fail && !vf_kset_fail && !vf_alloc_fail && !(ty & (ABTI_THREAD_TYPE_PRIMARY | ABTI_THREAD_TYPE_MAIN_SCHED)) && sch.automatic, "stackable automatic scheduler, association failed");
+    VF_COVER(r == ABT_SUCCESS && op == THREAD_POOL_OP_PUSH, "created and pushed"); VF_COVER(r == ABT_SUCCESS && pa && attr.f_cb && attr.migratable == ABT_FALSE, "callback on a non-migratable unit"); VF_COVER(r != ABT_SUCCESS && !vf_alloc_fail && vf_assoc_fail, "association failed"); VF_COVER(r != ABT_SUCCESS && vf_alloc_fail, "alloc failed"); VF_COVER(r != ABT_SUCCESS && use_sched && vf_assoc_fail && !vf_kset_fail && !vf_alloc_fail && !(ty & (ABTI_THREAD_TYPE_PRIMARY | ABTI_THREAD_TYPE_MAIN_SCHED)) && sch.automatic, "stackable automatic scheduler, association failed");
 }
 
 void h_thread_revive(void)
